@@ -443,7 +443,13 @@ def _ev1(e, ctx, memo):
         return v, max(ex - mx, _m(ctx, v)) + 1
     if o in ("sin", "cos"):
         v = ctx.sin(x) if o == "sin" else ctx.cos(x)
-        return v, max(ex, mx, _m(ctx, v)) + 1
+        # Interval 4.6 reduces |x| by repeated halving and undoes it with double-angle steps on cos (about 2 bits lost
+        # per step); sin is then sqrt(1 - cos^2), so near a zero of sin the absolute error is divided by |sin x|
+        mv = _m(ctx, v)
+        red = 2 * max(mx + 1, 0)
+        if o == "sin" and mx >= -2:
+            red += 1 - min(mv, 0)
+        return v, max(ex, red, mv) + 2
     if o == "atan":
         v = ctx.atan(x)
         return v, max(ex - 2 * max(0, mx), _m(ctx, v)) + 1
@@ -705,7 +711,7 @@ HEADER_RINT = ("From Coq Require Import Reals ZArith.\nFrom Coquelicot Require I
 HEADER_Z = "From Coq Require Import ZArith Bool.\nOpen Scope Z_scope.\n"
 
 DEFAULT_PARAMS = {
-    "margin": 24,            # i_prec = (estimated abs. error exponent - magnitude of the decided quantity) + margin
+    "margin": 32,            # i_prec = (estimated abs. error exponent - magnitude of the decided quantity) + margin
     "ladder": [1, 2],        # multipliers of i_prec tried in turn (bound and negation at each rung)
     "sentence_timeout": 60,  # Coq `Set Default Timeout` (s): a located "Timeout!" error instead of a dead file
     "single_timeout": 100,   # shell timeout for one single-lemma file (s)
@@ -1178,16 +1184,20 @@ def certify(instances, tactic_params=None, jobs=16, timeout=None, tag="misc", cl
         ins, why = arg
         t0 = time.time()
         base = ins.prec
-        steps = []
         mults = P["ladder"] if ins.kind != "Z" else [1]
-        for r, mlt in enumerate(mults):
-            pr = min(P["max_prec"], base * mlt)
-            order = [("neg", j) for j in range(len(ins._negs))] + ["goal"] if ins.hint == "fail" or (r == 0 and why in ("failed",)) \
-                else ["goal"] + [("neg", j) for j in range(len(ins._negs))]
-            for w in order:
-                if r == 0 and w == "goal" and why == "failed":
-                    continue          # already attempted in the batch with the same parameters
-                steps.append((w, pr))
+        precs = [min(P["max_prec"], base * m) for m in mults]
+        G = ["goal"]; N = [("neg", j) for j in range(len(ins._negs))]
+        steps = []
+        if ins.hint == "fail":                    # predicted violation: negation first at every rung, then the bound
+            for pr in precs: steps += [(w, pr) for w in N]
+            for pr in precs: steps += [(w, pr) for w in G]
+        elif ins.hint == "pass":                  # predicted to hold: more precision before trying the negation
+            for pr in precs: steps += [(w, pr) for w in G]
+            for pr in precs: steps += [(w, pr) for w in N]
+        else:
+            for pr in precs: steps += [(w, pr) for w in G + N]
+        if why == "failed":                       # already attempted in the batch with the same parameters
+            steps = [st for st in steps if st != ("goal", precs[0])]
         last_note = why
         for sidx, (w, pr) in enumerate(steps):
             if remaining() is not None and remaining() < 5:
